@@ -172,6 +172,14 @@ def check_style_precedence(ctx):
   t = unparse(mc.node)
   ctx.check("style_refs.pop()" in t and ".setdefault(" in t and "self.merge_chained_styles(" in t, "PRI-style", f"{mc.qualname}|chained references: last reference wins, own values win",
             ctx.where(mc.module, mc.node), "pop() from the end + setdefault, recursive", "chained referential styling no longer pops references last-first with setdefault (priority of later references / own values lost)")
+  # chained references are merged only after every <style> of the <styling> element is registered (forward references)
+  sx = ix.func(f"{EL}:StylingElement.from_xml")
+  reg_loops = [lp for lp in own_nodes(sx.node) if isinstance(lp, ast.For) and any(isinstance(c, ast.Call) and unparse(c.func).endswith("StyleElement.from_xml") for c in own_nodes(lp))]
+  merges = [c for c in own_nodes(sx.node) if isinstance(c, ast.Call) and unparse(c.func).endswith("merge_chained_styles")]
+  if reg_loops and merges:
+    inside = [c for c in merges if any(any(x is c for x in own_nodes(lp)) for lp in reg_loops)]
+    ctx.check(not inside, "PRI-style", f"{sx.qualname}|styles are merged after all of them are registered", ctx.where(sx.module, merges[0]), "the merge is outside the loop that reads the <style> children",
+              "chained style references are merged while the <style> elements are still being read: a style that refers to one defined later in the document loses what it should inherit")
   # the referenced style is flattened (recursion) before its properties are copied
   rec = [c for c in own_nodes(mc.node) if isinstance(c, ast.Call) and unparse(c.func).endswith("merge_chained_styles")]
   copies = [c for c in own_nodes(mc.node) if isinstance(c, ast.Call) and isinstance(c.func, ast.Attribute) and c.func.attr in ("setdefault", "update") and "styles" in unparse(c.func.value)]
